@@ -438,7 +438,9 @@ HasVariant(sol, fn) ==
 \* tolerance exponent: |got - expected| <= 2^KBits u_p mag   (DESIGN.md section 7)
 KBits == IF "KBITS" \in DOMAIN IOEnv THEN (CHOOSE k \in 0..40 : ToString(k) = IOEnv.KBITS) ELSE 14
 
-PairKBits == KBits + 1
+\* C20 pairs: the two values of a pair are two roundings of the same number (measured error of unchanged code: at most
+\* 2^3 u mag each); 2^8 leaves room without hiding a double-precision intermediate in the long double instantiation (2^11)
+PairKBits == IF "PAIRKBITS" \in DOMAIN IOEnv THEN (CHOOSE k \in 0..40 : ToString(k) = IOEnv.PAIRKBITS) ELSE 8
 \* known deviations (known_findings.json, keys <<solution, evaluator>>): not judged here
 KnownKeys == IF "KNOWN" \in DOMAIN IOEnv /\ IOEnv.KNOWN # "" THEN JsonDeserialize(IOEnv.KNOWN) ELSE <<>>
 IsKnown(sol, fn) == \E i \in 1..Len(KnownKeys) : KnownKeys[i][1] = sol /\ KnownKeys[i][2] = fn
@@ -452,8 +454,11 @@ ErrStat(sol, fn, p, ret, e) ==
 \* still match it, so only the listed deviation is tolerated); everything else against the property
 OracleAccept(p, sol, par, vec, fn, sig, args, cb, ret) ==
   LET known == IsKnown(sol, fn)
-      e == Expected(sol, par, vec, fn, sig, args, cb, known)
-  IN  IF known /\ ~HasVariant(sol, fn) THEN TRUE
+      e == TLCEval(Expected(sol, par, vec, fn, sig, args, cb, known))
+  IN  \* TLC register 11: the expected value just computed, for the accuracy statistics of the same event (MasaTrace!AccStep),
+      \* which would otherwise evaluate the oracle a second time
+      TLCSet(11, <<<<sol, par, vec, fn, sig, args, cb, known>>, e>>) /\
+      IF known /\ ~HasVariant(sol, fn) THEN TRUE
       ELSE IF Len(e) = 0 THEN TRUE
       \* the mathematics is not defined at these inputs (e.g. r = 0, t = 0, a negative density): not judged
       ELSE IF Len(e) > 1 /\ ~NIsFinite(e) THEN TRUE
